@@ -115,6 +115,69 @@ Proof.
   intros Hc. apply (G [] []); [reflexivity | exact Hc].
 Qed.
 
+(* ---- the same-conversation premise of [one_accepted_connection] cannot be dropped ----
+   A datagram under the same ClientID with ANOTHER conversation id and sn = 0 makes kcp-go's listener close the session
+   it has for that ClientID and accept a second one (Listener.packetInput: `else if sn == 0 { s.Close(); s = nil }`, then
+   the "new session" branch).  So the premise is not an artefact of the proof: one ClientID carrying two conversations is
+   two accepted connections, the first of them closed. *)
+
+(* exactly one session of this key, live, with ANOTHER conversation id, and the datagram starts a conversation (sn = 0):
+   the session is closed, to be replaced *)
+Lemma l_input_replace key conv conv2 d ds : forall ss,
+  conv2 <> conv ->
+  filter (of_key key) ss = [{| l_key := key; l_conv := conv; l_in := ds; l_live := true |}] ->
+  exists ss', l_input key (Some (conv2, 0)) d ss = (ss', Some false) /\
+              filter (of_key key) ss' = [{| l_key := key; l_conv := conv; l_in := ds; l_live := false |}].
+Proof.
+  intros ss Hne. induction ss as [|s r IH]; intros H; [discriminate|]. cbn [l_input]. cbn [filter] in H. unfold of_key at 1 in H.
+  destruct (beq (l_key s) key) eqn:E.
+  - injection H as Hs Hr. subst s. cbn [l_live l_key l_conv l_in]. cbn [andb].
+    apply N.eqb_neq in Hne. rewrite Hne. cbn [N.eqb].
+    eexists. split; [reflexivity|]. cbn [filter]. unfold of_key at 1. cbn [l_key]. rewrite beq_refl, Hr. reflexivity.
+  - rewrite andb_false_r. destruct (IH H) as [r' [Hi Hf]]. rewrite Hi. eexists. split; [reflexivity|].
+    cbn [filter]. unfold of_key at 1. rewrite E. exact Hf.
+Qed.
+
+Lemma listener_view_snoc read x : listener_view (read ++ [x]) = l_step (listener_view read) x.
+Proof. unfold listener_view. rewrite fold_left_app. reflexivity. Qed.
+
+(* Theorem (two conversations, two connections). Take ANY read history that satisfies the premise of
+   [one_accepted_connection] for [key] and [conv] and contains at least one datagram of [key] that is looked at; let one
+   more datagram arrive under the same ClientID with a different conversation id and sn = 0. Then the listener has
+   accepted TWO connections for [key]: the first, with everything read so far, is closed; the second is live and was
+   input the new datagram. *)
+Theorem second_conv_second_connection : forall key conv conv2 read x2,
+  (forall x, In x read -> from_key key x = true -> exists sn, conv_sn (dgram x) = Some (conv, sn)) ->
+  filter (from_key key) read <> [] ->
+  snd x2 = key -> long_enough x2 = true -> conv_sn (dgram x2) = Some (conv2, 0) -> conv2 <> conv ->
+  filter (of_key key) (listener_view (read ++ [x2])) =
+    [{| l_key := key; l_conv := conv; l_in := map dgram (filter (from_key key) read); l_live := false |};
+     {| l_key := key; l_conv := conv2; l_in := [dgram x2]; l_live := true |}].
+Proof.
+  intros key conv conv2 read x2 Hc Hne Hk Hl Hc2 Hdiff.
+  pose proof (one_accepted_connection key conv read Hc) as H1.
+  rewrite listener_view_snoc. set (ss := listener_view read) in *.
+  destruct (map dgram (filter (from_key key) read)) as [|d0 ds] eqn:Eds.
+  { exfalso. apply Hne. destruct (filter (from_key key) read); [reflexivity|discriminate]. }
+  cbn [one_session] in H1.
+  destruct (l_input_replace key conv conv2 (dgram x2) (d0 :: ds) ss Hdiff H1) as [ss' [Hi Hf]].
+  unfold l_step. fold (dgram x2). unfold long_enough in Hl. apply negb_true_iff in Hl. rewrite Hl, Hc2, Hk, Hi.
+  rewrite filter_app, Hf. cbn [filter app]. unfold of_key. cbn [l_key]. rewrite beq_refl. reflexivity.
+Qed.
+
+(* ... hence the conclusion of [one_accepted_connection] fails for such a history, whatever conversation id one names *)
+Corollary second_conv_not_one_connection : forall key conv conv2 read x2 conv',
+  (forall x, In x read -> from_key key x = true -> exists sn, conv_sn (dgram x) = Some (conv, sn)) ->
+  filter (from_key key) read <> [] ->
+  snd x2 = key -> long_enough x2 = true -> conv_sn (dgram x2) = Some (conv2, 0) -> conv2 <> conv ->
+  filter (of_key key) (listener_view (read ++ [x2])) <>
+    one_session key conv' (map dgram (filter (from_key key) (read ++ [x2]))).
+Proof.
+  intros key conv conv2 read x2 conv' Hc Hne Hk Hl Hc2 Hdiff.
+  rewrite (second_conv_second_connection key conv conv2 read x2 Hc Hne Hk Hl Hc2 Hdiff).
+  unfold one_session. destruct (map dgram (filter (from_key key) (read ++ [x2]))); discriminate.
+Qed.
+
 (* ================================================================ (B) upstream does not depend on time *)
 
 Section Sim.
